@@ -17,7 +17,38 @@ def persistent(b, root, loop_blocks):
     return True
 
 
-def sorted_after(b, recv, header, loop_blocks):
+CMP_ONLY = re.compile(r"::(cmp|partial_cmp|clone|deref|borrow|as_ref|eq|ne|lt|le|gt|ge|then|then_with|reverse|max|min|unwrap|as_str|as_slice|to_owned|to_string|0|1)$|Ord>::cmp$|PartialOrd(<.*>)?>::partial_cmp$|Deref>::deref$|Clone>::clone$")
+
+
+def untrusted_sort(F, b, t):
+    """None when the sort orders distinct map keys totally; otherwise the reason it may leave ties.
+    sort()/sort_unstable() use the elements' own order (keys first).  sort_by / sort_by_key are trusted only when their
+    closure compares parts of the elements themselves: a key looked up elsewhere (`table.get(k)`) need not be unique."""
+    n = callee_name(t) or ""
+    if re.search(r"::(sort|sort_unstable)$", n):
+        return None
+    if len(t["args"]) < 2:
+        return "its ordering function could not be inspected"
+    rv = b.def_rvalue(t["args"][1])
+    cid = rv.get("id") if rv and rv["k"] == "agg" else None
+    g = F.fns.get(cid) if cid else None
+    if g is None:
+        # a function item passed directly (e.g. `sort_by(Ord::cmp)`)
+        c = (t["args"][1].get("c") or {}) if isinstance(t["args"][1], dict) else {}
+        if "fn" in c and CMP_ONLY.search(c.get("rname") or c.get("fname") or ""):
+            return None
+        return "its ordering function could not be inspected"
+    gb = Body(g)
+    if rv.get("ops"):
+        return "its ordering function consults captured state (%d captured values), not only the entries" % len(rv["ops"])
+    for bi, u in gb.calls():
+        un = callee_name(u) or ""
+        if not CMP_ONLY.search(un):
+            return "its ordering function calls %s, so the sort key is derived rather than the entry's own key" % un.split("::")[-1]
+    return None
+
+
+def sorted_after(F, b, recv, header, loop_blocks):
     r = nd.root_local(b, recv)
     fl = nd.receiver_fields(b, recv)
     for bi, t in b.calls():
@@ -25,7 +56,7 @@ def sorted_after(b, recv, header, loop_blocks):
             continue
         n = callee_name(t) or ""
         if nd.SORT.search(n) and t["args"]:
-            if nd.root_local(b, t["args"][0]) == r and b.dominates(header, bi):
+            if nd.root_local(b, t["args"][0]) == r and b.dominates(header, bi) and untrusted_sort(F, b, t) is None:
                 return True
     return False
 
@@ -118,7 +149,12 @@ def run(ctx):
                 for bk, v in b.calls():
                     vn = callee_name(v) or ""
                     if nd.SORT.search(vn) and v["args"] and nd.root_local(b, v["args"][0]) in names and b.dominates(bj, bk):
-                        is_sorted = True
+                        why = untrusted_sort(F, b, v)
+                        if why is None:
+                            is_sorted = True
+                        else:
+                            bad.append("sequence `%s` is sorted, but %s: entries that compare equal keep their hash-map order" % (dty, why))
+                            is_sorted = True
                 if not is_sorted:
                     bad.append("collected into sequence `%s` without a sort" % dty)
                 continue
@@ -138,7 +174,7 @@ def run(ctx):
                 if not persistent(b, r, blocks):
                     continue
                 if skind == "seq":
-                    if sorted_after(b, recv, header, blocks):
+                    if sorted_after(F, b, recv, header, blocks):
                         continue
                     fl = ".".join(nd.receiver_fields(b, recv)) or (b.local_name(r) or "_%d" % r)
                     bad.append("pushes to sequence `%s` in map order (%s)" % (fl, b.site(sb)))
